@@ -135,3 +135,87 @@ func VerifC05WRRDrift(n int, h int, T int) {
 		}
 	}
 }
+
+// VerifC05WRRHistory: weighted_round_robin after ANY history of <= h
+// membership and health changes (add with a weight, remove, eject, recover,
+// pick), then a window of T picks over the then-fixed eligible set: every
+// backend stays within 2 * W_total / W_eligible of its proportional share,
+//   |count_i * W_eligible - t * w_i| <= 2 * W_total   for every t <= T,
+// where W_total is the largest total configured weight seen during the history.
+func VerifC05WRRHistory(h int, T int) {
+	lb := verifBareLB(2)
+	var bs []*Backend
+	add := func() {
+		b := verifBackend(len(bs))
+		b.Weight = verifrt.IntRange("weight", 1, 2)
+		bs = append(bs, b)
+		lb.strategy.AddBackend(b)
+	}
+	add()
+	add()
+	removed := make([]bool, 8)
+	r := verifRequest("10.1.2.3:4711")
+	maxTotal := 0
+	totalNow := func() int {
+		t := 0
+		for i, b := range bs {
+			if !removed[i] {
+				t += b.Weight
+			}
+		}
+		return t
+	}
+	maxTotal = totalNow()
+	for i := 0; i < h; i++ {
+		switch verifrt.Choice("op", 5) {
+		case 0:
+			if len(bs) < 4 {
+				add()
+			}
+		case 1:
+			j := verifrt.Choice("victim", len(bs))
+			if !removed[j] {
+				removed[j] = true
+				lb.strategy.RemoveBackend(bs[j])
+			}
+		case 2:
+			j := verifrt.Choice("victim", len(bs))
+			lb.MarkBackendUnhealthy(bs[j], time.Hour)
+		case 3:
+			j := verifrt.Choice("victim", len(bs))
+			bs[j].Mutex.Lock()
+			bs[j].IsHealthy = true
+			bs[j].Mutex.Unlock()
+		case 4:
+			lb.findHealthyBackend(r)
+		}
+		if t := totalNow(); t > maxTotal {
+			maxTotal = t
+		}
+	}
+	// the window
+	we := 0
+	for i, b := range bs {
+		if !removed[i] && b.IsHealthy {
+			we += b.Weight
+		}
+	}
+	if we == 0 {
+		verifrt.Assert(lb.findHealthyBackend(r) == nil, "no eligible backend: no pick")
+		return
+	}
+	count := make([]int, len(bs))
+	for t := 1; t <= T; t++ {
+		got := lb.findHealthyBackend(r)
+		idx := verifIndexOf(bs, got)
+		verifrt.Assert(idx >= 0 && !removed[idx] && bs[idx].IsHealthy, "weighted_round_robin picks an eligible member")
+		count[idx]++
+		for i := range bs {
+			if removed[i] || !bs[i].IsHealthy {
+				continue
+			}
+			d := count[i]*we - t*bs[i].Weight
+			verifrt.Assert(-2*maxTotal <= d && d <= 2*maxTotal, "weighted_round_robin stays within 2*W_total/W_eligible of the proportional share after any membership/health history")
+		}
+	}
+}
